@@ -248,9 +248,12 @@ func (c *Ctx) WatermarkConversions(prop string, s *Slashing, kind string) {
 						continue
 					}
 					nW++
-					x, path := an.Cut(an.CutQuery{From: an.Entry(fn), Target: func(i ssa.Instruction) bool { return i == ins },
+					// the obligation is on the uses of the unsigned view (a view that is computed early but consumed only
+					// below the sign test, or only written to the log, cannot influence a verdict)
+					uses := widenUses(cv)
+					x, path := an.Cut(an.CutQuery{From: an.Entry(fn), Target: func(i ssa.Instruction) bool { return uses[i] },
 						AcceptEdge: func(b *ssa.BasicBlock, i int, a *an.Atom) bool { return s.nonNegAtom(a, kind, f) }})
-					want := "conversion of state." + f + " to unsigned is dominated by [state." + f + " >= 0]"
+					want := "every use of uint64(state." + f + ") is dominated by [state." + f + " >= 0]"
 					if x != nil {
 						c.R.Fail(ruleW, Fn(fn)+":"+f, c.Pos(ins), "a negative watermark (-1 = none) is converted to unsigned without a sign test", want, an.PathString(c.Pos, path))
 					} else {
@@ -321,6 +324,27 @@ func reqBase(v ssa.Value) (types.Type, string, ssa.Value) {
 		return owner, f, b2
 	}
 	return owner, f, base
+}
+
+// widenUses returns the instructions that consume the unsigned view of a watermark in a way that can matter:
+// every referrer except debug references and arguments of zerolog event builders (logging only).
+func widenUses(cv *ssa.Convert) map[ssa.Instruction]bool {
+	out := map[ssa.Instruction]bool{}
+	if cv.Referrers() == nil {
+		return out
+	}
+	for _, r := range *cv.Referrers() {
+		if _, ok := r.(*ssa.DebugRef); ok {
+			continue
+		}
+		if call, ok := r.(*ssa.Call); ok {
+			if f := call.Call.StaticCallee(); f != nil && f.Pkg != nil && f.Pkg.Pkg.Path() == "github.com/rs/zerolog" && call.Call.Value != ssa.Value(cv) {
+				continue
+			}
+		}
+		out[r] = true
+	}
+	return out
 }
 
 func onlyFeedsPutUint(cv *ssa.Convert) bool {
